@@ -38,7 +38,8 @@ def main():
     demo = os.path.join(src, "demo%s.c" % suffix)
     bld = os.path.join(src, "build-demo%s.sh" % suffix)
     meta = os.path.join(src, "meta%s.json" % suffix)
-    letter = "abcdefghijklmnopqrstuvwxyz"[(int(suffix) - 1 if suffix else 0) + offset]
+    _L = "abcdefghijklmnopqrstuvwxyz"
+    letter = (list(_L) + ["z" + c for c in _L])[(int(suffix) - 1 if suffix else 0) + offset]  # after z: za, zb, ... (keeps directory order)
     sid = "%s%s" % (pid, letter)
     stage = None
     dest = os.path.join(VERIF, "seeded", sid)
